@@ -650,8 +650,13 @@ fn finish(prop: &'static dyn Prop, tier: Tier, seed: u64, plan: &Plan, mut a: Ag
     for (key, (n, what)) in &known_seen {
         out_lines.push(format!("KNOWN-FINDING: property={id} key={key} occurrences={n} {}", clip(&what.replace('\n', " "), 200)));
     }
-    for (key, (n, path)) in &new_keys {
-        out_lines.push(format!("VIOLATION property={id} replay={path} key={key} occurrences={n}"));
+    for (i, (key, (n, path))) in new_keys.iter().enumerate() {
+        if i < 12 {
+            out_lines.push(format!("VIOLATION property={id} replay={path} key={key} occurrences={n}"));
+        }
+    }
+    if new_keys.len() > 12 {
+        out_lines.push(format!("({} more violation keys; see the evidence file)", new_keys.len() - 12));
     }
 
     let evaluations = a.evals;
